@@ -35,8 +35,9 @@ def run_command(cmd, cli, userfile=None):
     return args, captured
 
 
-def cli_args(cmd, accts, flags, DT):
-    """the same configuration as it arrives from the real command line: argparser -> merge_config"""
+def cli_args(cmd, accts, flags, DT, nick_last=False):
+    """the same configuration as it arrives from the real command line: argparser -> merge_config
+    (nick_last: the server's settings come from a configuration section and the nickname is written LAST, after the account options)"""
     from ofxtools.scripts import ofxget
     opt = {"checking": "-C", "savings": "-S", "moneymrkt": "-M", "creditline": "-L", "creditcard": "-c", "investment": "-i"}
     argv = [{"request_stmt": "stmt", "request_stmtend": "stmtend"}[cmd], "--url", "https://ofx.example.com", "-u", "porkypig", "--dryrun", "--bankid", "B-1",
@@ -53,8 +54,17 @@ def cli_args(cmd, accts, flags, DT):
                 argv.append(sw)
         if flags.get("incoo"):
             argv.append("--open-orders")
-    ns = ofxget.make_argparser().parse_args(argv)
     cfg = ofxget.UserConfig()
+    if nick_last:
+        # drop the options that the configuration section provides, and put the nickname at the very end
+        cut = argv.index("--url")
+        argv = argv[:cut] + argv[cut + 4:]                 # --url U -u USER
+        for opt_ in ("--bankid", "--brokerid"):
+            if opt_ in argv:
+                i_ = argv.index(opt_); argv = argv[:i_] + argv[i_ + 2:]
+        argv = argv + ["mybank"]
+        cfg.read_string("[mybank]\nurl = https://ofx.example.com\nuser = porkypig\nbankid = B-1\nbrokerid = BR-2\n")
+    ns = ofxget.make_argparser().parse_args(argv)
     with patch("builtins.print"):
         return ofxget.merge_config(ns, cfg)
 
@@ -101,10 +111,11 @@ def check_configured(it, fn, a):
             try:
                 # account numbers that a configuration file can hold: no comma inside a number
                 from_file = seed % 4 == 3 and not any("," in v or v != v.strip() for vs in accts.values() for v in vs)
-                merged = file_args(cmd, accts, flags, DT, seed) if from_file else cli_args(cmd, accts, flags, DT)
+                nick_last = (not from_file) and seed % 8 == 5 and any(accts.get(t) for t in accts if not (cmd == "request_stmtend" and t == "investment"))
+                merged = file_args(cmd, accts, flags, DT, seed) if from_file else cli_args(cmd, accts, flags, DT, nick_last)
             except SystemExit as ex:
                 raise RuntimeError(f"harness: the real argument parser refused the generated command line ({ex})")
-            args, cap = run_command(cmd, {} if (cmd == "request_stmt" or from_file) else {"brokerid": "BR-2", **({"investment": list(accts["investment"])} if "investment" in accts else {})}, merged)     # stmtend has no --brokerid option
+            args, cap = run_command(cmd, {} if (cmd == "request_stmt" or from_file or nick_last) else {"brokerid": "BR-2", **({"investment": list(accts["investment"])} if "investment" in accts else {})}, merged)     # stmtend has no --brokerid option
             flags = {k: args[k] for k in ("inctran", "incoo", "incpos", "incbal")} if cmd == "request_stmt" else flags
             if cmd == "request_stmt":
                 want_flags = {"inctran": a[2].get("inctran", True), "incpos": a[2].get("incpos", True), "incbal": a[2].get("incbal", True), "incoo": bool(a[2].get("incoo"))}
